@@ -35,7 +35,7 @@ DECIDING = ['mpm_mixed_sign_energies_judged', 'mpm_mixed_sign_square_pencil_k<p_
             'tap:matrix_pencil_method', 'solver_calls_judged', 'vectors_judged', 'vector_fluctuations_judged',
             'projected_values_judged', 'projected_fluctuations_judged', 'sorting_nontrivial_slices_judged',
             'undefined_slices_judged', 'prune_cases_judged', 'mpm_energies_judged', 'history_repeats_judged', 'held_results_judged',
-            'input_unchanged_judged', 'projected_variants_judged', 'rejections_judged']
+            'input_unchanged_judged', 'projected_variants_judged', 'rejections_judged', 'direct_solver_calls_judged', 'mpm_set_energies_judged']
 RULE = ('cases: correlator matrices G(t) = Z F(t) Z^T from N = 2..5 Obs-valued energies (gaps >= 0.15) and generic overlaps '
         '(cond Z < 30), T = 8..24, t0 = 1..T/3, F = exact exponentials or exponentials with a backward part on 1-2 states '
         '(level crossings), symmetric or with an Obs-valued antisymmetric part added, with / without undefined slices, observables on '
@@ -48,7 +48,9 @@ RULE = ('cases: correlator matrices G(t) = Z F(t) Z^T from N = 2..5 Obs-valued e
         'histories A, B, A over different matrices of equal N, T, t0, names (GEVP, Eigenvalue, projected, prune interleaved) with held results and input '
         'digests re-checked; rejection rows; an extra matrix equal to an earlier one except for one undefined interior slice; spectator observables '
         '(derivative exactly 0, first / last parameter) and operators decoupled by exact zeros; default projection; every call repeated with the same '
-        'argument objects somewhere; matrix pencil stratified by case index over amplitude signs x parity of T x p in {default, T/2, k, interior, T-k}. non-trivial: at least one (t > t0, state) entry inside the '
+        'argument objects somewhere; timeslices undefined only in part; overlaps / antisymmetric parts with central value exactly 0.0 and non-zero fluctuations; '
+        'asymmetries below float32 resolution; a second matrix with exactly the central values of the first on other data; deprecated sorted_list, '
+        'auto_gamma; the solver called directly without chol_inv; several correlators at once in the matrix pencil; matrix pencil stratified by case index over amplitude signs x parity of T x p in {default, T/2, k, interior, T-k}. non-trivial: at least one (t > t0, state) entry inside the '
         'numerical judgement domain was compared with the exact spectrum and the inputs fluctuate; '
         'distinct = digest of (energies, overlaps, T, t0, ts, options)')
 ASSUMPTIONS = ['numerical judgement domain: entries whose expected rounding error eps*cond(G(t0))*lambda_max(t)/lambda_n(t) (eigenvalues) or '
@@ -62,6 +64,10 @@ ASSUMPTIONS = ['numerical judgement domain: entries whose expected rounding erro
                'observed/bound <= 2.6 with operator scales spanning 1e4); cond <= 1e9 by construction (gaps are narrowed when N*t0 is large)',
                't0 = 0 is included as a boundary although the quantifier starts at t0 = 1 (the exact identities hold there as well)',
                'every judgement counts its events as monitor_events["j:<mechanism>"]; the quick tier is sized so that each has >= ~50 events',
+               'an asymmetry the library\'s own symmetry test (float32 hash of value and fluctuations) does not see is not symmetrised; by the documented '
+               'contract of the solver the lower triangle is used, so the oracle adds that backward error (100 * delta / eps) to the condition number: '
+               'such cases are judged by the residual / solver monitor only (counted as tiny_asymmetry_seen_as_symmetric)',
+               'non-finite (NaN) timeslices are outside the quantifier: the fallback branch of _GEVP_solver (except LinAlgError/TypeError/ValueError) is not judged',
                'rejection rows only demand that an exception is raised (N = 1, ts <= t0, missing ts, unknown sort, Ntrunc >= N, non-positive G(t0), undefined t0, mpm p / k limits)']
 BUDGET = {'quick': 40, 'thorough': 400}
 
@@ -262,13 +268,17 @@ STATES = ['prange', 'tag', 'gm', 'presym']
 
 
 def make_model(rng, N, T, t0, ts, kind='exp', nonsym=False, nonepat='no', min_defined=None, chains=None, scale=None,
-               share=None, rep=None, state=None, spect=None, block=None):
+               share=None, rep=None, state=None, spect=None, block=None, asym=None, like=None):
     """kind: 'exp' | 'cross'.  nonepat: 'no' | 'pad' | 'int' | 'many'.
     scale: 'unit' | 'global' (matrix times c in 1e-8..1e8) | 'rows' (operator normalisations spanning 4 orders of magnitude).
     share: overlaps drawn from a pool of N Obs, each used at N matrix positions (circulant Z).
     rep: representation of the content handed to Corr.  state: things stored on the correlator before it is used.
     spect: 'none' | 'first' | 'last' - an observable on its own chain the matrix does not depend on (derivative exactly 0) in the
-    parameter list.  block: operator 0 couples to state 0 only and no other operator does (exact zeros in every G(t), Obs times 0)."""
+    parameter list.  block: operator 0 couples to state 0 only and no other operator does: 'zero' = exact zeros in every G(t) (Obs
+    times 0), 'zero-mean' = the decoupling overlaps have central value exactly 0.0 but fluctuate (G_0j has mean 0, fluctuations not).
+    asym (non-symmetric input): 'generic' | 'zero-mean' (the antisymmetric part has central value exactly 0: the MEANS are symmetric,
+    [i,j] and [j,i] are different observables) | 'tiny' (relative asymmetry 1e-10..1e-8, below what a float32 hash resolves).
+    like: another model whose central values (E, Z, backward parts) are taken over exactly, with fresh fluctuations."""
     m = Model()
     m.N, m.T, m.t0, m.ts, m.kind, m.nonsym, m.nonepat = N, T, t0, ts, kind, nonsym, nonepat
     layout, ce, cz = chains if chains is not None else rand_chains(rng)
@@ -283,11 +293,19 @@ def make_model(rng, N, T, t0, ts, kind='exp', nonsym=False, nonepat='no', min_de
     if spect is None:
         spect = str(rng.choice(['none', 'none', 'none', 'first', 'last']))
     if block is None:
-        block = bool(not share and rng.random() < 0.12)
+        block = False if share or rng.random() > 0.15 else str(rng.choice(['zero', 'zero-mean']))
+    if like is not None:
+        share, block, scale = False, False, like.scale
+    if asym is None:
+        asym = str(rng.choice(['generic', 'generic', 'zero-mean', 'tiny']))
+    m.asym = asym if nonsym else None
     m.scale, m.share, m.spect, m.block = scale, share, spect, block
     c = 10.0 ** rng.uniform(-8, 8) if 'global' in scale else 1.0
     d = 10.0 ** rng.uniform(-2, 2, size=N) if 'rows' in scale else np.ones(N)
     d = d * np.sqrt(c)
+    if like is not None:
+        d = like.d
+    m.d = d
     sig = 10.0 ** rng.uniform(-4, -2)
     Eo = [mk_obs(rng, x, sig, ce) for x in rand_spectrum(rng, N, t0)]
     Z0 = rand_overlaps(rng, N, circulant=share)
@@ -302,14 +320,21 @@ def make_model(rng, N, T, t0, ts, kind='exp', nonsym=False, nonepat='no', min_de
         Zo = [pool[(i - n) % N] for i in range(N) for n in range(N)]                              # the same objects again and again
     else:
         Zo = [mk_obs(rng, Z0[i, n], sig * (0.3 * d[i] + abs(Z0[i, n])), cz) for i in range(N) for n in range(N)]
-        if block:
+        if block == 'zero':
             Zo = [o if Z0[i // N, i % N] != 0 else 0.0 * o for i, o in enumerate(Zo)]     # an observable multiplied by zero
+        elif block == 'zero-mean':
+            Zo = [o if Z0[i // N, i % N] != 0 else o - o.value for i, o in enumerate(Zo)]  # central value exactly 0.0, fluctuations not
+    if like is not None:
+        Eo = [o - o.value + float(x) for o, x in zip(Eo, like.E)]
+        Zo = [o - o.value + float(x) for o, x in zip(Zo, like.Z.ravel())]
     m.E = np.array([o.value for o in Eo])
     m.Z = np.array([o.value for o in Zo]).reshape(N, N)
     if np.min(np.diff(m.E)) < 0.14 or np.linalg.cond(m.Z / d[:, None]) > 40:
         raise Skip()
     m.b = m.e = None
-    if kind == 'cross':
+    if like is not None:
+        m.b, m.e, m.kind = like.b, like.e, like.kind
+    elif kind == 'cross':
         m.b = np.zeros(N)
         m.e = np.zeros(N)
         for n in rng.choice(N, size=int(rng.integers(1, min(N, 2) + 1)), replace=False):
@@ -325,7 +350,9 @@ def make_model(rng, N, T, t0, ts, kind='exp', nonsym=False, nonepat='no', min_de
     W = None
     if nonsym:
         qo = mk_obs(rng, float(rng.uniform(0.5, 1.5)), 0.05, ce)
-        amp = 10.0 ** rng.uniform(-2.5, -0.5)
+        if asym == 'zero-mean':
+            qo = qo - qo.value
+        amp = 10.0 ** (rng.uniform(-10, -8) if asym == 'tiny' else rng.uniform(-2.5, -0.5))
         W = rng.normal(size=(T, N, N))
         sd = np.sqrt(np.einsum('tii->ti', G))
         W = (W - W.transpose(0, 2, 1)) * amp * sd[:, :, None] * sd[:, None, :]
@@ -377,6 +404,22 @@ def make_model(rng, N, T, t0, ts, kind='exp', nonsym=False, nonepat='no', min_de
     undefined -= protected
     m.defined = set(range(T)) - undefined
     m.Gobs = out
+    # a timeslice may also be undefined only in part: some entries None (the library's own predicate _check_for_none calls that undefined)
+    m.partial = {}
+    if undefined and nonepat in ('int', 'many') and rng.random() < 0.4:
+        for t in rng.choice(sorted(undefined), size=min(len(undefined), int(rng.integers(1, 3))), replace=False):
+            i, j = int(rng.integers(0, N)), int(rng.integers(0, N))
+            m.partial[int(t)] = {(i, j), (j, i)}
+
+    def slice_(t, conv=np.array):
+        if t in m.defined:
+            return conv(out[t])
+        if t in m.partial:
+            a = np.array(out[t])
+            for ij in m.partial[t]:
+                a[ij] = None
+            return conv(a)
+        return None
     # representation of the content
     if rep is None:
         rep = str(rng.choice(REPRS))
@@ -391,17 +434,19 @@ def make_model(rng, N, T, t0, ts, kind='exp', nonsym=False, nonepat='no', min_de
         arr = np.empty((N, N), dtype=object)
         for i in range(N):
             for j in range(N):
-                arr[i, j] = PE.Corr([out[t, i, j] if t in m.defined else None for t in range(T)])
+                arr[i, j] = PE.Corr([out[t, i, j] if t in m.defined or (t in m.partial and (i, j) not in m.partial[t]) else None for t in range(T)])
         corr = PE.Corr(arr)
     elif rep == 'fortran':
-        corr = PE.Corr([np.asfortranarray(out[t]) if t in m.defined else None for t in range(T)])
+        corr = PE.Corr([slice_(t, np.asfortranarray) for t in range(T)])
     elif rep == 'tview':
-        corr = PE.Corr([np.array(out[t]).T if t in m.defined else None for t in range(T)])      # transposed views of symmetric matrices
+        corr = PE.Corr([slice_(t, lambda a: np.array(a).T) for t in range(T)])                  # transposed views of symmetric matrices
     else:
-        corr = PE.Corr([np.array(out[t]) if t in m.defined else None for t in range(T)])
+        corr = PE.Corr([slice_(t) for t in range(T)])
     # state stored on the correlator before use
     if state is None:
         state = [x for x in STATES if rng.random() < 0.15]
+    if m.partial:
+        state = [x for x in state if x != 'gm']        # Corr.gamma_method itself does not accept partially undefined slices (C14)
     m.state = list(state)
     if 'presym' in state:
         corr = corr.matrix_symmetric()
@@ -419,6 +464,13 @@ def make_model(rng, N, T, t0, ts, kind='exp', nonsym=False, nonepat='no', min_de
     m.fluctuates = any(np.any(v != 0) for v in m.dE.values())
     m.key = digest('model', m.E, m.Z, T, t0, ts, kind, nonsym, sorted(undefined), repr(m.b), repr(m.e))
     m.digest0 = fast_digest(m.corr)
+    # An asymmetry the library's own symmetry test (float32 hash) does not see is not symmetrised: by the documented contract of the
+    # solver the lower triangle is then used, i.e. the exact problem is solved for a matrix that differs from the symmetrised one by
+    # delta.  That backward error enters the error bounds (factor 100 for the fluctuations of the antisymmetric part).
+    m.backward = 0.0
+    if nonsym and asym == 'tiny' and corr.is_matrix_symmetric():
+        sd = np.sqrt(np.einsum('tii->ti', G))
+        m.backward = float(np.max(np.abs(W * m.q) / (sd[:, :, None] * sd[:, None, :])))
     return m
 
 
@@ -446,7 +498,7 @@ def dG(m):
 
 def kappa(m, t0):
     if t0 not in m.kappa:
-        m.kappa[t0] = R.cond_for_bounds(m.G[t0])
+        m.kappa[t0] = R.cond_for_bounds(m.G[t0]) + 100.0 * m.backward / EPS
     return m.kappa[t0]
 
 
@@ -725,10 +777,20 @@ def run_gevp(ctx, m, sort, method, vo, rng=None):
     for st in m.state:
         ctx.cell('state', st, str(sort))
     ctx.cell('spectator', m.spect, 'block-zeros' if m.block else 'generic', 'obs' if vo else 'float')
-    if rng is not None:
+    ctx.cell('asym', str(m.asym), 'obs' if vo else 'float')
+    if rng is not None and rng.random() < (0.4 if vo else 0.1):
+        kw['auto_gamma'] = True                             # analyses the returned vectors (vector_obs only), changes no number
+    if rng is not None and rng.random() < 0.1:
+        ctx.count('deprecated_sorted_list_calls')
+        vecs = C.GEVP(ni(rng, t0), ts=ni(rng, ts_arg), sorted_list=sort, **kw)      # deprecated spelling of sort
+    elif rng is not None:
         vecs = C.GEVP(ni(rng, t0), ts=ni(rng, ts_arg), sort=sort, **kw)
     else:
         vecs = C.GEVP(t0, ts=ts_arg, sort=sort, **kw)
+    if vo and kw.get('auto_gamma'):
+        flat = [x for n in range(len(vecs)) for v in ([vecs[n]] if sort is None else vecs[n]) if v is not None for x in v]
+        jrequire(ctx, all(is_obs(x) and hasattr(x, 'e_dvalue') and np.isfinite(x.dvalue) and x.dvalue >= 0 for x in flat),
+                 'auto_gamma:returned-vectors-not-analysed', dict(what, n=len(flat)))
     if not judge_structure(ctx, m, t0, sort, vecs, what):
         return None, vecs
     hold(m, 'GEVP(sort=%s, method=%s, vector_obs=%s)' % (sort, method, vo), vecs)
@@ -842,8 +904,11 @@ def case_gevp_float(ctx, rng, N, nonsym, nonepat, kind):
     if kappa(m, t0) > 1e9:
         raise Skip()
     C = m.corr
-    jequal(ctx, bool(C.is_matrix_symmetric()), (not nonsym) or 'presym' in m.state, 'input:is_matrix_symmetric',
-              'symmetric input recognised / antisymmetric part seen', detail=dict(mirrored=m.mirrored, stored=m.state, scale=m.scale))
+    if m.asym == 'tiny':
+        ctx.count('tiny_asymmetry_seen_as_symmetric' if C.is_matrix_symmetric() else 'tiny_asymmetry_seen_as_non_symmetric')
+    else:
+        jequal(ctx, bool(C.is_matrix_symmetric()), (not nonsym) or 'presym' in m.state, 'input:is_matrix_symmetric',
+               'symmetric input recognised / antisymmetric part seen', detail=dict(mirrored=m.mirrored, stored=m.state, scale=m.scale, asym=m.asym))
     res = {}
     for method in ('eigh', 'cholesky', None):
         for sort in ('Eigenvalue', 'Eigenvector', None):
@@ -955,7 +1020,8 @@ def do_prune(ctx, rng, m, Ntrunc, t0b, idx):
     except (ValueError, TypeError) as e:
         if len(m.defined) < T and ('matmul' in str(e) or 'NoneType' in str(e)):
             ctx.ev()
-            ctx.violation('prune:undefined-slice-raises', dict(what, error=repr(e)[:200]))
+            ctx.violation('prune:partially-undefined-slice-raises' if m.partial else 'prune:undefined-slice-raises',
+                          dict(what, error=repr(e)[:200], partially_undefined={t: sorted(v) for t, v in m.partial.items()}))
             return
         raise
     jc(ctx, 'prune:shape')
@@ -1073,11 +1139,16 @@ def case_history(ctx, rng, N, idx):
     K = 2 if N > 3 or rng.random() < 0.6 else 3
     ms = []
     for j in range(K):
+        # coincidence of central values: the second matrix may have exactly the means of the first, on other data
+        like = ms[0] if j == 1 and rng.random() < 0.6 else None
+        if like is not None:
+            ctx.count('history_equal_means_models')
         m = make_model(rng, N, T, t0, ts, str(rng.choice(['exp', 'cross'])), bool(rng.random() < 0.3), 'no', chains=chains,
-                       rep=rep_, state=[], scale=str(rng.choice(['unit', 'global'])), min_defined=set(range(T)))
+                       rep=rep_, state=[], scale=str(rng.choice(['unit', 'global'])), min_defined=set(range(T)), like=like)
         if kappa(m, t0) > 1e9:
             raise Skip()
         m.last = None
+        m.is_like = like is not None
         ms.append(m)
     # equal summary, different member: the first matrix once more with one interior timeslice undefined
     # (same N, T, t0, names, same first / last slice, the very same Obs objects everywhere else)
@@ -1130,10 +1201,11 @@ def case_history(ctx, rng, N, idx):
     method0 = ['eigh', 'cholesky'][(idx // 3) % 2]
     first = ms[idx % 2]
     second = ms[1 - idx % 2]
-    r1 = op_gevp(first, sort0, method0)
+    vo0 = bool(N <= 3 and any(getattr(m, 'is_like', False) for m in ms))     # equal means on other data: only the fluctuations differ
+    r1 = op_gevp(first, sort0, method0, vo0)
     d1 = fast_digest(r1)
-    op_gevp(second, sort0, method0)
-    r3 = op_gevp(first, sort0, method0)
+    op_gevp(second, sort0, method0, vo0)
+    r3 = op_gevp(first, sort0, method0, vo0)
     ctx.count('history_repeats_judged')
     jrequire(ctx, fast_digest(r3) == d1, 'history:GEVP-result-depends-on-calls-made-in-between', dict(N=N, T=T, t0=t0, sort=sort0, method=method0))
     ops = [op_eigenvalue, op_projected, op_prune] if N >= 3 else [op_eigenvalue, op_projected]
@@ -1141,17 +1213,53 @@ def case_history(ctx, rng, N, idx):
         m = ms[int(rng.integers(0, K))]
         r = rng.random()
         if r < 0.4:
-            vo = bool(N <= 3 and rng.random() < 0.2)
+            vo = bool(N <= 3 and rng.random() < 0.3)
             op_gevp(m, [None, 'Eigenvalue', 'Eigenvector'][int(rng.integers(0, 3))], [None, 'eigh', 'cholesky'][int(rng.integers(0, 3))], vo)
         else:
             ops[int(rng.integers(0, len(ops)))](m)
-    r4 = op_gevp(first, sort0, method0)
+    r4 = op_gevp(first, sort0, method0, vo0)
     ctx.count('history_repeats_judged')
     jrequire(ctx, fast_digest(r4) == d1, 'history:GEVP-result-depends-on-calls-made-in-between', dict(N=N, T=T, t0=t0, sort=sort0, method=method0, at='end'))
     for m in ms:
         judge_held(ctx, m)
         judge_unchanged(ctx, m, 'history')
     ctx.sample({'history': dict(N=N, T=T, t0=t0, ts=ts, K=K, chains=ms[0].chains, rep=rep_), 'E': [m.E for m in ms]})
+
+
+# ------------------------------------------------------------------------------------------
+# the solver called directly (as the library's own tests do): Cholesky factor computed inside, fallback branch
+def case_solver(ctx, rng, idx):
+    N = int(rng.integers(2, 6))
+    T = int(rng.integers(8, 17))
+    t0, ts = pick_times(rng, T)
+    m = make_model(rng, N, T, t0, ts, str(rng.choice(['exp', 'cross'])), False, 'no', state=[], rep='list')
+    if kappa(m, t0) > 1e9:
+        raise Skip()
+    solver = PE.correlators._GEVP_solver
+    vo = bool(idx % 3 == 0 and N <= 4)
+    t = int(rng.integers(t0 + 1, T))
+    G0 = m.corr[t0] if vo else m.G[t0]
+    Gt = m.corr[t] if vo else m.G[t]
+    ctx.cell('solver', 'obs' if vo else 'float', 'N%d' % N)
+    what = dict(N=N, t0=t0, t=t, vector_obs=vo, via='_GEVP_solver called directly')
+    res = {}
+    for method, kw in (('cholesky', {}), ('cholesky', {'chol_inv': None}), ('eigh', {})):
+        if vo and method == 'eigh':
+            continue
+        vs = solver(Gt, G0, method=method, **kw)             # no chol_inv: the factor is computed inside
+        ctx.count('direct_solver_calls_judged')
+        if not jrequire(ctx, len(vs) == N and all(v is not None for v in vs), 'solver:direct-call-returns-no-vectors', dict(what, method=method)):
+            continue
+        al = judge_vectors_at(ctx, m, t0, t, t, 'Eigenvalue', method, vo, [vs[n] for n in range(N)])
+        res.setdefault(method, al)
+    # with a precomputed inverse factor the result is the same
+    L = np.linalg.cholesky(m.G[t0])
+    if not vo:
+        a = np.asarray(solver(Gt, G0, method='cholesky', chol_inv=np.linalg.inv(L)))
+        b = np.asarray(solver(Gt, G0, method='cholesky'))
+        jclose(ctx, a, b, 'solver:precomputed-and-internal-cholesky-factor-differ', 'vectors', rtol=1e-9 + FV * EPS * kappa(m, t0), detail=what)
+    if m.fluctuates:
+        ctx.nontrivial.add(digest(m.key, 'solver', t, vo))
 
 
 # ------------------------------------------------------------------------------------------
@@ -1190,6 +1298,11 @@ def case_reject(ctx, rng, idx):
         ('prune:Ntrunc=N', lambda: C.prune(ni(rng, N), tproj=ts, t0proj=t0)),
         ('prune:Ntrunc>N', lambda: C.prune(N + 1, tproj=ts, t0proj=t0)),
         ('projected:vector-of-wrong-length', lambda: C.projected(np.ones(N + 1))),
+        ('projected:vector-list-shorter-than-T', lambda: C.projected([v] * (T - 1), v)),
+        ('projected:right-vector-list-longer-than-T', lambda: C.projected(v, [v] * (T + 1))),
+        ('N=1:is_matrix_symmetric', lambda: single.is_matrix_symmetric()),
+        ('N=1:matrix_symmetric', lambda: single.matrix_symmetric()),
+        ('mpm:correlators-of-different-length', lambda: PE.mpm.matrix_pencil_method([[single[t] for t in range(T)], [single[t] for t in range(T - 1)]], k=1)),
         ('mpm:p>=number-of-points', lambda: PE.mpm.matrix_pencil_method([single[t] for t in range(T)], k=1, p=T)),
         ('mpm:k>p', lambda: PE.mpm.matrix_pencil_method([single[t] for t in range(T)], k=3, p=2)),
         ('mpm:k>N-p', lambda: PE.mpm.matrix_pencil_method([single[t] for t in range(T)], k=3, p=T - 2)),
@@ -1344,6 +1457,74 @@ def case_mpm(ctx, rng, k, idx, j=0):
     ctx.sample({'mpm': dict(k=k, T=T, p=p), 'E': E, 'got': gv, 's_k/s_1': ratio})
 
 
+def case_mpm_set(ctx, rng, k, idx):
+    """several correlators analysed at once (list of lists): all are sums of the same k exponentials with other amplitudes."""
+    nset = 2 + idx % 2
+    even = (idx // 2) % 2 == 0
+    T = int(rng.integers(max(8, 2 * k), 24))
+    if (T % 2 == 0) != even:
+        T += 1
+    pmode = MPM_PMODES[(idx // 4) % 5]
+    p = {'default': None, 'half': T // 2, 'k': k, 'max': T - k, 'interior': int(rng.integers(k, T - k + 1))}[pmode]
+    E = rand_spectrum(rng, k, 1)
+    layout, ce, cz = rand_chains(rng)
+    chains = {n: len(i) for n, i in ce + cz}
+    sig = 10.0 ** rng.uniform(-4, -2)
+    Eo = [mk_obs(rng, x, sig, ce) for x in E]
+    E = np.array([o.value for o in Eo])
+    cs, data, amps = [], [], []
+    same = bool(idx % 7 == 3)                               # the same correlator object in every slot
+    for j in range(nset):
+        if same and j > 0:
+            cs.append(cs[0]); data.append(data[0]); amps.append(amps[0])
+            continue
+        A = rng.uniform(0.3, 2.0, size=k) * np.array([(-1.0) ** (i * (idx % 3 == 0) + j * (idx % 3 == 1)) for i in range(k)])
+        Ao = [mk_obs(rng, x, sig * abs(x), cz) for x in A]
+        A = np.array([o.value for o in Ao])
+        c, J = R.single_correlator(E, A, T)
+        co = PE.derived_observable(lambda x, **kw: R.single_correlator(x[:k], x[k:], T)[0], Eo + Ao, man_grad=J)
+        cs.append(c)
+        amps.append(A)
+        data.append(list(co) if (idx + j) % 2 == 0 else np.array(co))
+    ctx.cell('mpm-set', 'k%d' % k, 'n%d' % nset, pmode, 'same-object' if same else 'different')
+    kw = dict(k=ni(rng, k))
+    if p is not None:
+        kw['p'] = ni(rng, p)
+    d0 = fast_digest(data)
+    en = PE.mpm.matrix_pencil_method(data, **kw)
+    jrequire(ctx, fast_digest(data) == d0, 'mutation:mpm-changes-its-input', dict(k=k, T=T, p=p, sets=nset))
+    what = dict(k=k, T=T, p=p, E=E, sets=nset, same_object=same)
+    jc(ctx, 'mpm:result-shape')
+    if len(en) != k or not all(is_obs(x) for x in en):
+        ctx.ev()
+        ctx.violation('mpm:result-shape', dict(what, got=len(en)))
+        return
+    ref, ratio, sv = R.pencil_energies_set(cs, k, p)
+    what['s_k/s_1'] = ratio
+    vtol = 1e-12 + 500 * EPS / ratio
+    dtol = 1e-11 + 3e4 * EPS / ratio
+    if vtol > 1e-6 or np.max(np.abs(ref - E) / E) > vtol:
+        ctx.count('mpm_ill_conditioned_not_judged')
+        return
+    gv = np.array([x.value for x in en])
+    jc(ctx, 'mpm:energies-not-sorted')
+    if not np.all(np.diff(np.abs(gv)) >= 0):
+        ctx.ev()
+        ctx.violation('mpm:energies-not-sorted', dict(what, got=gv))
+        return
+    for n in range(k):
+        ctx.count('mpm_set_energies_judged')
+        jclose(ctx, gv[n], E[n], 'mpm:several-correlators:energy-value', 'level %d' % n, rtol=vtol, detail=what)
+        if dtol > 1e-6:
+            continue
+        got = obs_deltas(en[n], chains)
+        exp = obs_deltas(Eo[n], chains)
+        scale = max(max(float(np.max(np.abs(e))) for e in exp.values()), 1e-300)
+        for cn in chains:
+            jclose(ctx, got[cn], exp[cn], 'mpm:several-correlators:energy-fluctuations', 'level %d chain %s' % (n, cn), rtol=dtol, scale=scale, detail=what)
+    ctx.nontrivial.add(digest('mpmset', E, T, p, nset))
+
+
 # ------------------------------------------------------------------------------------------
 def setup(ctx):
     global PE, CTX
@@ -1376,8 +1557,11 @@ def plan(tier):
         for npat in NONE_PATS:
             p.append(('prune:%d:%s' % (N, npat), 8 if q else 80))
     p.append(('reject', 50 if q else 200))
+    p.append(('solver', 60 if q else 400))
+    for k in (1, 2, 3):
+        p.append(('mpmset:%d' % k, 25 if q else 200))
     for N in (2, 3, 4):
-        p.append(('hist:%d' % N, 12 if q else 150))
+        p.append(('hist:%d' % N, 14 if q else 150))
     po, pf = [], []
     for N in (2, 3, 4, 5):
         for sort in ('Eigenvalue', 'Eigenvector', 'None'):
@@ -1410,5 +1594,9 @@ def run_case(ctx, kind, idx, rng):
         case_history(ctx, rng, int(k[1]), idx)
     elif k[0] == 'reject':
         case_reject(ctx, rng, idx)
+    elif k[0] == 'solver':
+        case_solver(ctx, rng, idx)
+    elif k[0] == 'mpmset':
+        case_mpm_set(ctx, rng, int(k[1]), idx)
     else:
         raise ValueError(kind)
